@@ -49,6 +49,10 @@ def extra_worlds():
         {"all.do": [S(deps=["t1", "t2"])], "t1.do": [S(deps=["c"], tolerant=True)], "t2.do": [S(deps=["c"], tolerant=True, out="file")],
          "c.do": [S(kind="csum", deps=["s"], fail="flag", proj=True, out="file")]},
         ["all", "t1", "t2", "c"], ["all"])
+    w["link-spellings"] = World(   # two jobs ask for one file, one of them through a symbolic link to its directory
+        "link-spellings", {"s": ["0", "1"], "d/k": ["0"]},
+        {"all.do": [S(deps=["a", "b"])], "a.do": [S(deps=["d/y"])], "b.do": [S(deps=["ld/y"], out="file")], "d/y.do": [S(deps=["../s"])]},
+        ["all", "a", "b", "d/y"], ["all"], symlinks={"ld": "d"})
     w["chain3"] = World(
         "chain3", {"s": ["0", "1"]},
         {"t1.do": [S(deps=["m"])], "t2.do": [S(deps=["m"], out="file")], "m.do": [S(deps=["l"])], "l.do": [S(deps=["s"])]},
@@ -85,6 +89,7 @@ def scenarios(tier):
     # two jobs go on without a shared dependency whose build fails; the repaired dependency must reach both afterwards
     # (the follow-up rebuild after editing every source -- flag included -- is compared with the serial run's)
     L.append((SC.scn("tolerated-failure-of-shared-j2", w["tolerant-shared"], ["redo --no-log -j2 all"], visible=VIS), 1 if q else 2))
+    L.append((SC.scn("two-spellings-through-dir-symlink-j2", w["link-spellings"], ["redo --no-log -j2 all"], visible=VIS), 1 if q else 2))
     # every order of the command line (what --shuffle can produce) for two targets sharing a chain
     for perm in list(itertools.permutations(["t1", "t2"]))[:1 if q else 2]:      # quick: one order
         L.append((SC.scn("chain3-j2-" + "".join(perm), w["chain3"], ["redo --no-log -j2 " + " ".join(perm)], visible=VIS), 1 if q else 2))
